@@ -379,6 +379,22 @@ func runExpr(c *vp.Child) {
 		}
 		r.tree(idx, shapeAt(idx, 2))
 	}
+	// flat chains `a op1 b op2 c op3 d` for every triple of binary operators: the
+	// tree is the one the precedence and associativity table of §3.4.8 prescribes
+	// (these are trees of depth 3 that the depth-2 enumeration does not reach)
+	k := 0
+	for _, o1 := range binOps {
+		for _, o2 := range binOps {
+			for _, o3 := range binOps {
+				k++
+				if !c.Mine(k) {
+					continue
+				}
+				r.tree(int64(1)<<40+int64(k), chainShape([]string{o1.name, o2.name, o3.name}))
+				c.Feature("operator-chains-of-3", 1)
+			}
+		}
+	}
 	if c.Thorough() {
 		n3 := shapeCount(3)
 		rnd := c.Rand("depth3")
@@ -388,6 +404,31 @@ func runExpr(c *vp.Child) {
 			r.tree(idx, shapeAt(idx, 3))
 		}
 	}
+}
+
+// chainShape builds the tree of `x0 ops[0] x1 ops[1] x2 ...` by precedence
+// climbing over the table of §3.4.8.
+func chainShape(ops []string) *node {
+	pos := 0
+	var parse func(minPrec int) *node
+	parse = func(minPrec int) *node {
+		lhs := &node{}
+		for pos < len(ops) {
+			op := binByName[ops[pos]]
+			if op.prec < minPrec {
+				break
+			}
+			pos++
+			next := op.prec + 1
+			if op.right {
+				next = op.prec
+			}
+			rhs := parse(next)
+			lhs = &node{op: op.name, kids: []*node{lhs, rhs}}
+		}
+		return lhs
+	}
+	return parse(0)
 }
 
 var renderPlan = []struct {
